@@ -13,9 +13,12 @@ MCKindSet == {"struct", "enum"}
 MCTypeOptSet(k) ==
   { [DefOpts EXCEPT !.traits = t] : t \in { <<"Clone">>, <<"Clone", "Copy">>, <<"Copy", "Clone">> } }
 MCVarOptSet(c) == { [DefVariant EXCEPT !.style = s] : s \in Styles }
-MCFieldSet(c) == { [DefField EXCEPT !.clone = t] : t \in {Own, Method} }
+CONSTANT Narrow   \* TRUE: at most one variant wider than two fields (quick instance); FALSE: no such restriction
+MCFieldSet(c) ==
+  IF NVariants(c) > 0 /\ Narrow /\ ~MayWiden(c) THEN {}
+  ELSE { [DefField EXCEPT !.clone = t] : t \in {Own, Method} }
 \* a struct that educes Copy refuses Clone(method) on its fields (deliberate, S2)
-MCAdmissible(c) == ~(c.kind = "struct" /\ HasTrait(c, "Copy") /\ HasCloneMethod(c))
+MCAdmissible(c) == (Narrow => WideOK(c)) /\ ~(c.kind = "struct" /\ HasTrait(c, "Copy") /\ HasCloneMethod(c))
 
 Init == BuildInit /\ run = NoRun
 
